@@ -652,13 +652,31 @@ static int policy_choose(int* cand, int n) {
   return cand[g.r_sched.below((uint32_t)n)];
 }
 
+// The workload may contribute a short key (what was being waited for) so that two different
+// liveness failures of one workload get different class keys.
+static sim_hang_cb g_hang_key_cb;
+extern "C" void sim_set_hang_keyer(sim_hang_cb cb) {
+  g_hang_key_cb = cb;
+}
+static void liveness_class(char* out, size_t n, const char* what) {
+  char key[160] = "";
+  if (g_hang_key_cb)
+    g_hang_key_cb(key, sizeof key);
+  if (key[0])
+    snprintf(out, n, "%s:%s", what, key);
+  else
+    snprintf(out, n, "%s", what);
+}
+
 [[noreturn]] static void report_deadlock() {
   char d[512];
   describe_threads(d, sizeof d);
   char extra[600] = "";
   if (g.hang_cb)
     g.hang_cb(extra, sizeof extra);
-  sim_fail("deadlock", "no runnable thread and no timer: %s %s", d, extra);
+  char cls[200];
+  liveness_class(cls, sizeof cls, "deadlock");
+  sim_fail(cls, "no runnable thread and no timer: %s %s", d, extra);
 }
 
 // The current thread cannot continue (blocked or exited): choose who runs next.
@@ -838,7 +856,9 @@ static void enter_tail() {
   char extra[600] = "";
   if (g.hang_cb)
     g.hang_cb(extra, sizeof extra);
-  sim_fail("hang", "step budget exhausted in fair tail: %s %s", d, extra);
+  char cls[200];
+  liveness_class(cls, sizeof cls, "hang");
+  sim_fail(cls, "step budget exhausted in fair tail: %s %s", d, extra);
 }
 
 static inline void advance(uint64_t ns) {
@@ -1880,7 +1900,8 @@ extern "C" uint64_t sim_last_load_step(void) {
 extern "C" void sim_event_wait(const void* key) {
   if (!simulated())
     return;
-  sim_point(SP_EVENT_WAIT, key);
+  // No simulation point before blocking: the caller's "check the condition, then wait" must be
+  // atomic with respect to the waker (there is no mutex to close that window with).
   block_on(SW_EVENT, key, 0);
 }
 extern "C" void sim_event_wake_all(const void* key) {
@@ -1970,6 +1991,19 @@ extern "C" void sim_set_hang_describer(sim_hang_cb cb) {
 extern "C" void sim_watch(const void* addr, sim_watch_cb cb) {
   g.watch_addr = addr;
   g.watch_cb = cb;
+}
+// post-operation watch on one 32-bit atomic: the shim reports (kind, value before, value after)
+extern "C" {
+const volatile void* sim_watched32;
+}
+static sim_watch32_cb g_watch32_cb;
+extern "C" void sim_watch32(const void* addr, sim_watch32_cb cb) {
+  sim_watched32 = addr;
+  g_watch32_cb = cb;
+}
+extern "C" void sim_watch32_post(int kind, uint32_t before, uint32_t after) {
+  if (g_watch32_cb && tl_self)
+    g_watch32_cb(kind, before, after, tl_self->id);
 }
 
 // ------------------------------------------------------------------------------------------
